@@ -134,8 +134,9 @@ Example C02_hyps_met :
 Proof. exact hyps_met. Qed.
 Print Assumptions C02_hyps_met.
 
-(** ** The identities an identityref accepts (meta.FindIdentity over Type.Base(), as node.NewValue
-    and the JSON/XML writers call it).  At full strength: a text is accepted exactly when it names
+(** ** The helper meta.FindIdentity called with Type.Base() as the candidates (the JSON/XML writers
+    call it so; node.NewValue no longer does, see C02_identity_value_accept below).  Read as the
+    acceptance test of an identityref, at full strength: a text is accepted exactly when it names
     an identity derived, directly or indirectly, from every base (RFC 7950 9.10.2), for every
     hierarchy of identities - any branching, any depth, any number of modules. *)
 Definition C02_identity_accept_full_statement : Prop :=
@@ -145,7 +146,7 @@ Definition C02_identity_accept_full_statement : Prop :=
      (exists j, In j (accepted_inter mods ids) /\ snd j = t)).
 
 (** It holds for an identityref with one base (several bases: finding k=2) and every text but the
-    name of the base itself (finding k=5).  The out-of-fuel outcome is excluded by hypothesis and
+    name of the base itself (the helper tests the candidates it is handed: its contract).  The out-of-fuel outcome is excluded by hypothesis and
     cannot occur on a hierarchy without cycles (C02_identity_lookup_never_out_of_fuel). *)
 Theorem C02_identity_accept_partial : forall mods b t,
   find_identity (find_fuel mods) mods [b] t <> FuelOut -> snd b <> t ->
@@ -194,20 +195,57 @@ Theorem C02_identity_lookup_never_out_of_fuel : forall (rank : iid -> nat) mods 
 Proof. exact find_fuel_enough. Qed.
 Print Assumptions C02_identity_lookup_never_out_of_fuel.
 
-(** node.NewValue labels the value with the local part of the text it was given *)
-Theorem C02_identity_value_label : forall mods ids v lab,
-  ident_value (find_fuel mods) mods ids v = Some (Some lab) -> lab = value_local v.
-Proof. exact ident_value_label. Qed.
+(** ** node.NewValue on an identityref (toIdentRef after repair 873d214: the search starts below
+    each base).  At full strength for one base: a text is accepted exactly when it names an identity
+    derived from the base - the base's own name included in the statement (several bases: k=2). *)
+Theorem C02_identity_value_accept : forall mods b v,
+  ident_value (value_fuel mods) mods [b] v <> None ->
+  ((exists lab, ident_value (value_fuel mods) mods [b] v = Some (Some lab)) <->
+   (exists j, In j (accepted_inter mods [b]) /\ snd j = value_local v)).
+Proof. exact value_single_rfc. Qed.
+Print Assumptions C02_identity_value_accept.
 
-(** finding k=5: the input lies in the region, model = what the code does, the oracle rejects it *)
-Theorem C02_kf5_base_itself_refuted :
+(** any number of bases: accepted exactly for the names below one of them (the union of k=2) *)
+Theorem C02_identity_value_union : forall mods ids v,
+  ident_value (value_fuel mods) mods ids v <> None ->
+  ((exists lab, ident_value (value_fuel mods) mods ids v = Some (Some lab)) <->
+   (exists j, In j (accepted_union mods ids) /\ snd j = value_local v)).
+Proof. exact value_union. Qed.
+Print Assumptions C02_identity_value_union.
+
+(** the value is labelled with the local part of the text given, which names an accepted identity *)
+Theorem C02_identity_value_label : forall mods ids v lab,
+  ident_value (value_fuel mods) mods ids v = Some (Some lab) ->
+  lab = value_local v /\ exists j, In j (accepted_union mods ids) /\ snd j = lab.
+Proof. exact ident_value_label. Qed.
+Print Assumptions C02_identity_value_label.
+
+Theorem C02_identity_value_never_out_of_fuel : forall (rank : iid -> nat) mods x,
+  (forall i j, In j (direct_derived mods i) -> (rank j < rank i)%nat) ->
+  forall f bases, (forall b, In b bases -> (rank b <= f)%nat) ->
+  value_loop f mods x bases <> FuelOut.
+Proof. exact value_fuel_enough. Qed.
+Print Assumptions C02_identity_value_never_out_of_fuel.
+
+(** the base's own name: the helper FindIdentity answers with the base when handed the bases (its
+    contract), node.NewValue rejects it; the code before the repair accepted it and fails the oracle *)
+Theorem C02_base_itself_rejected :
   find_identity (find_fuel mods_tr) mods_tr [i_tr "transport"] (T "transport") = Found (i_tr "transport")
   /\ ~ In (i_tr "transport") (accepted_inter mods_tr [i_tr "transport"])
-  /\ known_find E_tr l_tr (model_probes E_tr l_tr [T "transport"]) = Some 5%nat
+  /\ ident_value (value_fuel mods_tr) mods_tr [i_tr "transport"] (T "transport") = Some None
+  /\ ident_value_old (find_fuel mods_tr) mods_tr [i_tr "transport"] (T "transport") = Some (Some (T "transport"))
+  /\ known_find E_tr l_tr (model_probes E_tr l_tr [T "transport"]) = None
   /\ corr_find E_tr l_tr (model_probes E_tr l_tr [T "transport"]) = true
-  /\ find_meets_spec E_tr l_tr [T "transport"] = false.
-Proof. exact kf_base_itself_refuted. Qed.
-Print Assumptions C02_kf5_base_itself_refuted.
+  /\ find_meets_spec E_tr l_tr [T "transport"; T "m:transport"] = true.
+Proof. exact base_itself_rejected. Qed.
+Print Assumptions C02_base_itself_rejected.
+
+Theorem C02_identity_value_old_refuted :
+  spec_find E_tr l_tr (old_probes E_tr l_tr [T "transport"]) = false
+  /\ corr_find E_tr l_tr (old_probes E_tr l_tr [T "transport"]) = false
+  /\ spec_find E_tr l_tr (old_probes E_tr l_tr [T "tcp"; T "m:dtls"; T "other"]) = true.
+Proof. exact value_old_refuted. Qed.
+Print Assumptions C02_identity_value_old_refuted.
 
 (** non-vacuity: transport <- tcp <- tls, transport <- udp <- dtls, other.  The hypotheses of the
     theorems above are met (not out of fuel, the text is not the base's name, a decreasing measure
@@ -235,5 +273,5 @@ Example C02_identity_branching_lookup :
   /\ find_identity (find_fuel mods_tr) mods_tr [i_tr "transport"] (T "tls") = Found (i_tr "tls")
   /\ find_identity (find_fuel mods_tr) mods_tr [i_tr "transport"] (T "other") = NotFound
   /\ find_identity (find_fuel mods_tr) mods_tr [i_tr "tcp"] (T "dtls") = NotFound
-  /\ ident_value (find_fuel mods_tr) mods_tr [i_tr "transport"] (T "m:dtls") = Some (Some (T "dtls")).
+  /\ ident_value (value_fuel mods_tr) mods_tr [i_tr "transport"] (T "m:dtls") = Some (Some (T "dtls")).
 Proof. exact lookup_tr. Qed.
